@@ -367,11 +367,17 @@ func pick(rt *rapid.T, n int, label string) int {
 	if n <= 1 {
 		return 0
 	}
-	x := rapid.Uint64().Draw(rt, label)
-	x += 0x9e3779b97f4a7c15
-	x = (x ^ (x >> 30)) * 0xbf58476d1ce4e5b9
-	x = (x ^ (x >> 27)) * 0x94d049bb133111eb
-	x ^= x >> 31
+	// rapid favours a handful of special values (0, 1, max, ...) with several per cent each: one
+	// draw, however well mixed, keeps those spikes.  Three independent draws are mixed, so that a
+	// spike needs all three to be special at once.
+	var x uint64
+	for i, c := range []uint64{0x9e3779b97f4a7c15, 0xd6e8feb86659fd93, 0xa0761d6478bd642f} {
+		d := rapid.Uint64().Draw(rt, fmt.Sprintf("%s.%d", label, i)) + c
+		d = (d ^ (d >> 30)) * 0xbf58476d1ce4e5b9
+		d = (d ^ (d >> 27)) * 0x94d049bb133111eb
+		x ^= d ^ (d >> 31)
+		x = x<<21 | x>>43
+	}
 	return int(x % uint64(n))
 }
 
